@@ -833,7 +833,9 @@ def rest_of_run(rep, thorough):
                 dict(H=64, W=96, grid=16, box=16, cores=1, nslice=1, offset=1000.0, scale=2.0, nanblock=True, blankcols=40),
                 dict(H=48, W=40, grid=4, box=12, cores=2, nslice=2, offset=10.0, scale=2.0, nanblock=True, infs=True),
                 dict(H=64, W=64, grid=8, box=32, cores=1, nslice=1, offset=3.0, scale=2.0 ** -30, nanblock=False, outliers=True),
-                dict(H=48, W=40, grid=4, box=12, cores=1, nslice=1, offset=7.0, scale=2.0, nanblock=False, cube4=True)):
+                dict(H=48, W=40, grid=4, box=12, cores=1, nslice=1, offset=7.0, scale=2.0, nanblock=False, cube4=True),
+                dict(H=50, W=40, grid=4, box=12, cores=3, nslice=3, offset=100.0, scale=2.0, nanblock=False),      # rows not divisible by the stripes
+                dict(H=49, W=41, grid=8, box=16, cores=1, nslice=1, offset=100.0, scale=2.0, nanblock=False)):    # sizes not multiples of the grid, small box
         bad, cls, detail = bane_oracle(cfg)
         rep.validated_runs(4)
         if bad:
